@@ -628,6 +628,55 @@ pub fn run_property(p: &dyn Property, opt: &Options) -> i32 {
 }
 
 /// Replays one file. Exit 1 + VIOLATION line iff the same site fails again.
+/// Result of executing one scenario in a process of its own.
+pub struct FreshRun {
+    /// (site, witness, detail) of every violation the child reported
+    pub fails: Vec<(String, String, String)>,
+    /// lines the child printed with the prefix "TRACE "
+    pub traces: Vec<String>,
+}
+
+/// Executes `sc` of property `id` in a fresh process (this binary, `--replay`), so that nothing process-wide -
+/// lazily initialised statics, thread-locals, allocator state - is shared with the runs made so far. Scratch
+/// files live under `<root>/sim/target/fresh`. `Err` is a harness error.
+pub fn run_in_fresh_process(id: &str, sc: &Scenario) -> Result<FreshRun, String> {
+    use std::sync::atomic::{AtomicU64, Ordering};
+    static N: AtomicU64 = AtomicU64::new(0);
+    let root = std::env::var("VERIF_ROOT").unwrap_or_else(|_| "/verif".to_string());
+    let dir = format!("{}/sim/target/fresh", root);
+    std::fs::create_dir_all(&dir).map_err(|e| format!("cannot create {}: {}", dir, e))?;
+    let path = format!("{}/{}-{}-{}.json", dir, id, std::process::id(), N.fetch_add(1, Ordering::Relaxed));
+    let j = J::obj().set("property", J::s(id)).set("site", J::s("")).set("expect", J::s("any")).set("scenario", sc.to_json());
+    std::fs::write(&path, j.to_string_pretty()).map_err(|e| format!("cannot write {}: {}", path, e))?;
+    let exe = std::env::current_exe().map_err(|e| format!("current_exe: {}", e))?;
+    let out = std::process::Command::new(exe).arg(id).arg("--replay").arg(&path).env("VERIF_ROOT", &root).env("VERIF_NO_KNOWN", "1").output().map_err(|e| format!("cannot spawn: {}", e))?;
+    let _ = std::fs::remove_file(&path);
+    let text = String::from_utf8_lossy(&out.stdout).to_string();
+    match out.status.code() {
+        Some(0) | Some(1) => {}
+        c => return Err(format!("fresh process ended with {:?}: {} {}", c, text, String::from_utf8_lossy(&out.stderr))),
+    }
+    let mut r = FreshRun { fails: vec![], traces: vec![] };
+    let lines: Vec<&str> = text.lines().collect();
+    for (i, l) in lines.iter().enumerate() {
+        if let Some(t) = l.strip_prefix("TRACE ") {
+            r.traces.push(t.to_string());
+        }
+        if l.starts_with("VIOLATION ") {
+            let sw = lines.get(i + 1).copied().unwrap_or("").trim();
+            let (site, witness) = match sw.strip_prefix("site=") {
+                Some(rest) => match rest.split_once(" witness=") {
+                    Some((a, b)) => (a.to_string(), b.to_string()),
+                    None => (rest.to_string(), String::new()),
+                },
+                None => (String::new(), String::new()),
+            };
+            r.fails.push((site, witness, lines.get(i + 2).copied().unwrap_or("").trim().to_string()));
+        }
+    }
+    Ok(r)
+}
+
 pub fn replay(p: &dyn Property, root: &str, path: &str) -> i32 {
     let text = match std::fs::read_to_string(path) {
         Ok(t) => t,
